@@ -29,6 +29,9 @@ only clearer of the flags:
  P6  a variable produced by solveExplicitPDE has (or lazily gets) the cache before solvePDE reads it (C04.S7)
  P8u update_value and the value setter copy the data: afterwards the variable shares no storage with its source
  P8  copy() and arithmetic results own deep copies of the BCs and fresh arrays (C14.O4/O6)
+ P10 edit histories as user-level statements, explored breadth-first over an abstraction of the protocol state of a variable
+     and a copy of it (operations: edit, apply_BCs, explicit step, copy, solve on either) until no new abstract state appears:
+     at every solve the system handed to the solver carries the current boundary coefficient and every term exactly once
 """
 from __future__ import annotations
 import ast
@@ -342,6 +345,104 @@ def job(args):
            f"after the explicit step the input variable is {'still flagged dirty' if still_dirty else 'flagged clean'}; its cached boundary row mentions "
            f"{sorted(n for n in names if n in ('bc', 'stale'))}; ghost values {'current' if ghosts_ok else 'stale'} "
            "(invariant: clean flags imply current cache and ghosts - the returned variable shares the flag object and clears it)", fe.loc())
+    # P10 edit histories, run as user-level statements by the interpreter on variables built by the real constructor.
+    # The state space is explored breadth-first over an abstraction of the protocol state - per live variable: the
+    # BCsTerm_precalc option, whether the cached boundary term is absent / current / stale / polluted, the two dirty flags; for
+    # the pair (a variable and a copy of it): which objects they share - until no new abstract state appears, i.e. for histories
+    # of any length.  Operations: edit a boundary coefficient (a fresh value each time), apply_BCs(), v = solveExplicitPDE(v, ..),
+    # o = v.copy(), and solvePDE on either variable.  At every solvePDE the system handed to the solver must carry the *current*
+    # coefficient of the edited face and no earlier one, and every term exactly once in an interior row (exact: all values are
+    # distinct atoms).  This complements the inductive rules P1..P9 with the states only copies / explicit results reach.
+    if cls in ('Grid1D',) or tier != 'quick':
+        from ..interp import AFuncRef
+        from ..npmodel import deep_copy
+        fsolve, fexp = sm.func('pdesolver', 'solvePDE'), sm.func('pdesolver', 'solveExplicitPDE')
+        hi_face = FACES[1]
+        Gh = tuple(w.N[k] + 1 if k == 0 else w.t[k] for k in range(d))
+        Pin = tuple(w.t)
+        rec = []
+        sol = lambda a, k: (rec.append(a), Box(flat_vector(w, 'sol')))[1]
+        w.interp.solver_hook = lambda name, a, k: sol(a, k)
+        gam = w.cell_variable('gamma')
+        base = dict(solvePDE=AFuncRef(fsolve), solveExplicitPDE=AFuncRef(fexp), ext=PyCallable(sol), dt=Rat.atom(('dt',)),
+                    rhs=Box(flat_vector(w, 'rhs')), Mt=w.call('source', 'linearSourceTerm', w.cell_variable('beta')),
+                    Rt=w.call('source', 'constantSourceTerm', gam))
+        gam_P = Rat.atom(('gamma',) + Pin)
+
+        def coef_names(r):
+            return frozenset(atom_key(a)[0] for a in r.atoms() if isinstance(atom_key(a), tuple) and (str(atom_key(a)[0]).startswith('edit') or atom_key(a)[0] == 'bc'))
+
+        def cur_coef(v):
+            c = snap(v.attrs['BCs'].attrs[hi_face].attrs['_c'])
+            return coef_names(c.at(tuple(ZERO for _ in c.shape)))
+
+        def var_state(v):
+            if v is None:
+                return None
+            ct = v.attrs.get('_BCsTerm')
+            cache = 'absent'
+            if isinstance(ct, tuple) and len(ct) == 2:
+                try:
+                    cache = 'current' if coef_names(w.vector_at(ct[1], Gh)) == cur_coef(v) else 'stale'
+                    if not is_zero(w.vector_at(ct[1], Pin)):
+                        cache += '+polluted'
+                except (AnalysisError, AbstractRaise):
+                    cache = 'unreadable'
+            bcd = bool(_bc_dirty(w, v.attrs['BCs']))
+            return (v.attrs.get('BCsTerm_precalc'), cache, bcd, vdirty(v))
+
+        def pair_state(v, o):
+            sh = ()
+            if o is not None:
+                tv, to = v.attrs.get('_BCsTerm'), o.attrs.get('_BCsTerm')
+                sh = (v.attrs['BCs'] is o.attrs['BCs'], tv is not None and tv is to,
+                      isinstance(tv, tuple) and isinstance(to, tuple) and len(tv) == 2 and len(to) == 2 and tv[1] is to[1],
+                      v.attrs['_value'] is o.attrs['_value'])
+            return (var_state(v), var_state(o), sh)
+        OPS = {'Ev': "v.BCs.{f}.c = cnew", 'Eo': "o.BCs.{f}.c = cnew", 'Av': 'v.apply_BCs()', 'Ao': 'o.apply_BCs()', 'X': 'v = solveExplicitPDE(v, dt, rhs)',
+               'C': 'o = v.copy()', 'Sv': 'solvePDE(v, [Mt, Rt], ext)', 'So': 'solvePDE(o, [Mt, Rt], ext)'}
+        v0 = w.interp.instantiate('CellVariable', [w.mesh, Rat.atom(('init',)), w.boundary_conditions()])
+        seen = {pair_state(v0, None): ''}
+        frontier = [((v0, None), [], [])]
+        ntrans, nedit, limit = 0, 0, (400 if tier == 'quick' else 1500)
+        while frontier and ntrans < limit:
+            (v, o), path, codes = frontier.pop(0)
+            for op, tmpl in OPS.items():
+                if op.endswith('o') and o is None:
+                    continue
+                ntrans += 1
+                v2, o2 = deep_copy((v, o), {})
+                env = dict(base, v=v2, o=o2)
+                if op[0] == 'E':
+                    nedit += 1
+                    env['cnew'] = Rat.atom((f'edit{nedit}',))
+                line = tmpl.format(f=hi_face)
+                hist = '; '.join(path + [line])
+                rec.clear()
+                try:
+                    out = w.interp.run_snippet(line, env)
+                except AbstractRaise as e:
+                    ob('P10', f"history/{op}", False, f"history {hist} :: raises {e.exc}: {e.msg}", fs.loc())
+                    continue
+                v3, o3 = out['v'], out.get('o')
+                if op[0] == 'S':
+                    tgt = v3 if op == 'Sv' else o3
+                    if not rec:
+                        okh, why = False, 'solvePDE handed the system to no solver'
+                    else:
+                        got = coef_names(w.vector_at(rec[-1][1], Gh))
+                        rin = w.vector_at(rec[-1][1], Pin)
+                        okh = got == cur_coef(tgt) and is_zero(rin - gam_P)
+                        why = (f"boundary row of the {hi_face} face carries {sorted(got)}, current coefficient is {sorted(cur_coef(tgt))}; "
+                               f"interior right-hand side {fmt_rat(rin, 4)} (expected the source term once: {fmt_rat(gam_P, 3)})")
+                    ob('P10', 'history/' + ('-'.join(codes[-4:] + [op]) or 'start'), okh, f"history {hist} :: {why}", fs.loc())
+                kk = pair_state(v3, o3)
+                if kk not in seen:
+                    seen[kk] = hist
+                    frontier.append(((v3, o3), path + [line], codes + [op]))
+        notes_p10 = f"[{cls}] {len(seen)} abstract protocol states reached, {ntrans} transitions explored" + ('' if not frontier else f" (budget of {limit} transitions reached with {len(frontier)} states unexpanded)")
+        obs.append(dict(rule='P10', construct='history/state-space', ok=True, detail=notes_p10, loc=fs.loc(), nontrivial=False))
+        units.update({'pdesolver.solveExplicitPDE', 'cell.CellVariable.copy', 'cell.CellVariable.apply_BCs'})
     return dict(obs=obs, units=sorted(units), samples=samples, funcs=sorted(w.interp.funcs_seen))
 
 
